@@ -117,7 +117,10 @@ def run(s):
     def arrays(name, code, spec, assumptions, functions=(), where=None, replay=None):
         def ob():
             h = hyp(assumptions)
-            r = symnp.prove_code_equals(code if callable(code) else (lambda: code), spec, h, tier=tier, name=name, where=where)
+            try:
+                r = symnp.prove_code_equals(code if callable(code) else (lambda: code), spec, h, tier=tier, name=name, where=where)
+            except symnp.ShapeObligation as e:
+                r = core.refuted("symnp", "%s: shape obligation failed: %s" % (name, e), witness_id=name + ":shape")
             if replay is not None:
                 attach_replay(r, *replay)
             return r
@@ -332,13 +335,25 @@ def crosscheck_numpy(s, ns):
                 return cls(calc, (conv(e0), conv(e1)))
             from contracts.nonshear_env import patched, UnitsStub, class_attr
             # real numpy, symbolic scalars as elements
-            with patched(ns, units=UnitsStub(ns), h_div_k=Sc(HK)):
-                o = build(True)
-                real = {"value_isothermal": o.value_isothermal, "isothermal_to_adiabatic": o.isothermal_to_adiabatic}
-            with patched(ns, numpy=SymNumpy(), units=UnitsStub(ns), h_div_k=Sc(HK)), \
-                    class_attr(ns.LongitudinalElasticModulusPhononContribution, "q_weights", property(lambda self: symnp.from_numpy(wq))):
-                o = build(False)
-                stub = {"value_isothermal": o.value_isothermal, "isothermal_to_adiabatic": o.isothermal_to_adiabatic}
+            real, stub = {}, {}
+            for what in ("value_isothermal", "isothermal_to_adiabatic"):
+                with patched(ns, units=UnitsStub(ns), h_div_k=Sc(HK)):
+                    try:
+                        real[what] = getattr(build(True), what)
+                    except Exception as e:                   # the real code rejects these shapes under real numpy
+                        real[what] = ("raises", type(e).__name__)
+                with patched(ns, numpy=SymNumpy(), units=UnitsStub(ns), h_div_k=Sc(HK)), \
+                        class_attr(ns.LongitudinalElasticModulusPhononContribution, "q_weights", property(lambda self: symnp.from_numpy(wq))):
+                    try:
+                        stub[what] = getattr(build(False), what)
+                    except symnp.ShapeObligation as e:
+                        stub[what] = ("raises", "ShapeObligation")
+            for what in list(real):
+                if isinstance(real[what], tuple) or isinstance(stub[what], tuple):
+                    n += 1
+                    if not (isinstance(real[what], tuple) and isinstance(stub[what], tuple)):
+                        mism.append((kind, what, "real numpy: %r, stub: %r" % (real[what] if isinstance(real[what], tuple) else "returns", stub[what] if isinstance(stub[what], tuple) else "returns")))
+                    del real[what]
             for what in real:
                 ra, sa = real[what], stub[what]
                 if tuple(sa.shape) != ra.shape:
